@@ -68,6 +68,17 @@ def staged_doc(prog, max_blocks=60, methods_too=False):
     from .inline import inline_mir
     from .sroa import scalarise
     prog.callgraph()
+    base_fns = dict(prog.fns)
+    try:
+        rebound = rebind_field_params(prog, base_fns)
+    except Exception:
+        rebound = set()
+        base_fns = dict(prog.fns)
+    if rebound:
+        doc0 = dict(prog.doc)
+        doc0["fns"] = base_fns
+        prog = Program(doc0)
+        prog.callgraph()
     stages = {}           # stage → sorted list of its callers
     # functions that create a closure which captures something (a capture-free closure is the same value wherever its creator's copy stands)
     capturing = set()
@@ -84,7 +95,7 @@ def staged_doc(prog, max_blocks=60, methods_too=False):
         imp = f.get("impl") or {}
         if f.get("kind") == "Closure" or f.get("no_mangle") or imp.get("trait") or len(f["mir"]["blocks"]) > max_blocks:
             continue
-        if f.get("vis") == "pub":
+        if f.get("vis") == "pub" or f.get("rebound_field"):
             continue
         if f.get("output") == "bool" and (f.get("inputs") or []) in (["char"], ["&char"]):
             continue                    # a character-class predicate is part of the rules' vocabulary (its set is read from it)
@@ -161,6 +172,116 @@ def staged_doc(prog, max_blocks=60, methods_too=False):
         pass
     doc["fns"] = fns
     return doc, {k: sorted(hosts_of(k))[0] for k in sorted(gone)}
+
+
+def rebind_field_params(prog, fns):
+    """`fn look_up(map: &Map, …)` written as an associated function of a role struct S and called — at every call site, all of them in methods
+    of S — as `S::look_up(&self.f, …)` is the method `fn look_up(&self, …)` reading `self.f`.  Rewrites such functions (first parameter only) and
+    their call sites into the method form on a copy, so that field-path readers see `self.f` again.  Returns the set of rewritten functions."""
+    import copy
+    done = set()
+    for k, f in list(fns.items()):
+        imp = f.get("impl") or {}
+        S = imp.get("self")
+        if f.get("kind") == "Closure" or imp.get("trait") or not S or S not in prog.adts or f.get("vis") == "pub":
+            continue
+        ins = f.get("inputs") or []
+        if not ins or ins[0].replace("&mut ", "&").lstrip("&").split("<")[0] == S.split("<")[0] or not ins[0].startswith("&"):
+            continue            # no parameter, or already a method
+        sites = prog.call_sites.get(k, [])
+        if not sites or len(sites) > 4:
+            continue
+        field = None
+        ok = True
+        edits = []
+        for (caller, bb, t) in sites:
+            cf = fns.get(caller)
+            if not cf or cf.get("kind") == "Closure" or (cf.get("impl") or {}).get("self") != S:
+                ok = False
+                break
+            cm = cf["mir"]
+            if cm["arg_count"] < 1 or S.split("<")[0] not in cm["locals"][1]["ty"]:
+                ok = False
+                break
+            # find the call in the caller's raw MIR: same callee, look at its first argument's definition
+            found = False
+            for bi, b_ in enumerate(cm["blocks"]):
+                tt = b_["term"]
+                if tt["k"] == "call" and "callee" in tt and (tt["callee"].get("resolved") or tt["callee"].get("path")) == k:
+                    a0 = tt["args"][0]
+                    if a0.get("k") not in ("move", "copy") or a0["place"]["p"]:
+                        ok = False
+                        break
+                    l = a0["place"]["l"]
+                    # the temporary's single definition, through re-borrows (`_a = &*_b; _b = &(*self).f`)
+                    alldefs = {}
+                    for b2_ in cm["blocks"]:
+                        for st in b2_["stmts"]:
+                            if st["k"] == "assign" and not st["place"]["p"]:
+                                alldefs.setdefault(st["place"]["l"], []).append(st["rv"])
+                    rv = None
+                    for _ in range(4):
+                        ds = alldefs.get(l, [])
+                        if len(ds) != 1:
+                            break
+                        rv = ds[0]
+                        if rv["k"] == "ref" and rv["place"]["l"] != 1 and [x for x in rv["place"]["p"] if x != "*"] == []:
+                            l = rv["place"]["l"]
+                            rv = None
+                            continue
+                        if rv["k"] == "use" and rv["op"].get("k") in ("move", "copy") and not rv["op"]["place"]["p"]:
+                            l = rv["op"]["place"]["l"]
+                            rv = None
+                            continue
+                        break
+                    if not rv or rv["k"] != "ref" or rv["place"]["l"] != 1:
+                        ok = False
+                        break
+                    pr = [x for x in rv["place"]["p"] if x != "*"]
+                    if len(pr) != 1 or not isinstance(pr[0], dict) or "n" not in pr[0]:
+                        ok = False
+                        break
+                    if field is not None and field["n"] != pr[0]["n"]:
+                        ok = False
+                        break
+                    field = pr[0]
+                    edits.append((caller, bi))
+                    found = True
+            if not ok or not found:
+                ok = False
+                break
+        if not ok or field is None:
+            continue
+        m = copy.deepcopy(f["mir"])
+        pty = m["locals"][1]["ty"]
+        n = len(m["locals"])
+        m["locals"].append({"ty": pty, "name": None})
+
+        def ren(x):
+            if isinstance(x, dict):
+                if "l" in x and "p" in x and x["l"] == 1:
+                    x["l"] = n
+                for v in x.values():
+                    ren(v)
+            elif isinstance(x, list):
+                for v in x:
+                    ren(v)
+        ren(m["blocks"])
+        sty = ("&mut " if pty.startswith("&mut") else "&") + S
+        m["locals"][1] = dict(m["locals"][1], ty=sty)
+        m["blocks"][0]["stmts"].insert(0, {"k": "assign", "place": {"l": n, "p": [], "ty": pty},
+                                           "rv": {"k": "ref", "mut": pty.startswith("&mut"), "place": {"l": 1, "p": ["*", field], "ty": pty.replace("&mut ", "").lstrip("&")}},
+                                           "loc": (m["blocks"][0]["stmts"][0].get("loc") if m["blocks"][0]["stmts"] else m["blocks"][0]["term"].get("loc")) or {"line": None, "file": ""}})
+        fns[k] = dict(f, mir=m, inputs=[sty] + list(ins[1:]), rebound_field=field["n"])
+        for (caller, bi) in edits:
+            cf = fns[caller]
+            cm = copy.deepcopy(cf["mir"])
+            tt = cm["blocks"][bi]["term"]
+            sty_c = cm["locals"][1]["ty"]
+            tt["args"][0] = {"k": "copy", "place": {"l": 1, "p": [], "ty": sty_c}}
+            fns[caller] = dict(cf, mir=cm)
+        done.add(k)
+    return done
 
 
 def redispatch_loops_to_recursion(fns):
